@@ -319,6 +319,13 @@ func (c *oCache) TryRemove(id string) (ok bool, err error) {
 		c.mu.Unlock()
 		return false, ErrNotExists
 	}
+	// an entry whose load is still in flight has no value to TryClose yet;
+	// like GC, only consider active entries (e.value is set under c.mu
+	// before the entry becomes active)
+	if !e.isActive() {
+		c.mu.Unlock()
+		return false, nil
+	}
 
 	c.mu.Unlock()
 
